@@ -92,8 +92,8 @@ def r2(cx):
             cx.check(c.bb not in r, "explicit drop of the permit only after publish()", "permit-early-drop", c.where())
 
 
-@rule("C17", "C17.R6", "the semaphore permit is held until the commit's queue slot has been dequeued")
-def r6(cx):
+@rule("C17", "C17.R8", "the semaphore permit is held until the commit's queue slot has been dequeued")
+def r8(cx):
     """The commit queue has exactly as many slots as the semaphore has permits.  A slot is freed when publish() dequeues the
     batch, which happens only after every EARLIER batch was applied.  The committer is told so through its oneshot
     receiver.  If any path of commit() returns (and thereby drops the permit) after enqueue without awaiting that signal --
@@ -124,8 +124,8 @@ def r6(cx):
              "still occupied behind an earlier, slower commit; a few failing commits then overflow the 8-slot queue and the next commit panics" % (len(bad), b.where(bad[0]) if bad else "-"))
 
 
-@rule("C17", "C17.R7", "no lost wake-up: a `running`-gated notify is paired with a re-check after the flag is cleared")
-def r7(cx):
+@rule("C17", "C17.R9", "no lost wake-up: a `running`-gated notify is paired with a re-check after the flag is cleared")
+def r9(cx):
     """`wake_up_memtable()` does not notify while the flush task's `running` flag is set.  The task decides that there is no
     more work (has_pending_immutables() == false) and clears the flag LATER; a rotation in between is told `already
     running` and its memtable stays queued with no wake-up pending.  Two such rotations reach the stall threshold and every
